@@ -91,7 +91,7 @@ def gen_step(rng, st: State):
             col["required"] = True
             return {"m": m, "col": col}
         if m == "remove_columns" and len(keys) >= 2:
-            ks = rng.sample(keys, 1 if rng.random() < 0.8 else 2)
+            ks = rng.sample(keys, 1 if rng.random() < 0.8 or len(keys) < 3 else 2)
             return {"m": m, "keys": ks}
         if m == "select_columns" and keys:
             ks = rng.sample(keys, rng.randint(1, len(keys)))
@@ -109,7 +109,8 @@ def gen_step(rng, st: State):
             cand = [k for k in plain if st.cols[k]["required"]
                     and st.cols[k]["dtype"] in ("int", "float", "str", "dt", "const")]
             if cand and len(keys) >= 2:
-                ks = rng.sample(cand, 1 if rng.random() < 0.8 else min(2, len(cand)))
+                ks = rng.sample(cand, 1 if rng.random() < 0.8 or len(keys) < 3
+                                else min(2, len(cand)))
                 append = bool(st.index) and rng.random() < 0.4
                 return {"m": m, "keys": ks, "drop": rng.random() < 0.8, "append": append}
         if m == "reset_index" and st.index:
